@@ -6,6 +6,7 @@ require (
 	github.com/bmeg/grip v0.0.0
 	github.com/jmoiron/sqlx v1.2.0
 	github.com/lib/pq v1.2.0
+	go.mongodb.org/mongo-driver v1.12.0
 	google.golang.org/grpc v1.53.0
 	google.golang.org/protobuf v1.28.2-0.20230222093303-bc1253ad3743
 )
@@ -82,7 +83,6 @@ require (
 	github.com/xdg-go/scram v1.1.2 // indirect
 	github.com/xdg-go/stringprep v1.0.4 // indirect
 	github.com/youmark/pkcs8 v0.0.0-20201027041543-1326539a0a0a // indirect
-	go.mongodb.org/mongo-driver v1.12.0 // indirect
 	golang.org/x/crypto v0.6.0 // indirect
 	golang.org/x/exp v0.0.0-20200513190911-00229845015e // indirect
 	golang.org/x/net v0.7.0 // indirect
